@@ -7,6 +7,7 @@ import (
 	"go/types"
 	"sort"
 	"strings"
+	"sync"
 
 	"golang.org/x/tools/go/ssa"
 )
@@ -100,22 +101,35 @@ type ledger struct {
 }
 
 func newLedger(w *World, fn *ssa.Function) *ledger {
-	predWorld = w
+	if fn != nil && fn.Prog != nil {
+		worldByProg.Store(fn.Prog, w)
+	}
 	return &ledger{w: w, fn: fn, keys: map[ssa.Value]string{}}
+}
+
+// worldByProg: the World an SSA program belongs to (several Worlds are analysed side by side in
+// the corpus replay; nothing of one may leak into another).
+var worldByProg sync.Map
+
+func worldOfProg(p *ssa.Program) *World {
+	if v, ok := worldByProg.Load(p); ok {
+		return v.(*World)
+	}
+	return nil
 }
 
 // predSubst maps the parameters of a predicate function (a small bool function
 // with a single call site, e.g. `isFullURL(s)`) to the arguments of that call:
 // the facts that dominate its non-false return hold, in terms of the
 // arguments, wherever the call is known to have returned true.
-var (
-	predSubst = map[ssa.Value]ssa.Value{}
-	predWorld *World
-)
+// (kept per World, in World.predSubst)
 
 // importPredicateFacts: the call is known to have returned true.
 func importPredicateFacts(call *ssa.Call, depth int) []edgeFact {
-	w := predWorld
+	var w *World
+	if call.Parent() != nil {
+		w = worldOfProg(call.Parent().Prog)
+	}
 	g := call.Call.StaticCallee()
 	if w == nil || g == nil || depth > 3 || len(g.Blocks) == 0 || len(g.Blocks) > 24 || !inModule(g) || funcHasLoop(g) {
 		return nil
@@ -139,11 +153,119 @@ func importPredicateFacts(call *ssa.Call, depth int) []edgeFact {
 		return nil
 	}
 	for i, prm := range g.Params {
-		predSubst[prm] = call.Call.Args[i]
+		w.predSubst.Store(prm, call.Call.Args[i])
 	}
 	out := dominatingFacts(rets[0].Block())
 	if _, isC := rets[0].Results[0].(*ssa.Const); !isC {
 		out = append(out, expandFact(edgeFact{rets[0].Results[0], true}, depth+1)...)
+	}
+	return out
+}
+
+// postBounds: call is `r..., flag := g(args...)` of a module function and the flag result (an error
+// known to be nil, or a bool known to be true) says that g succeeded. For every int result r_i the
+// bounds that hold at EVERY successful return of g -- 0 <= r_i, r_i < Len(param), r_i < len(param)
+// -- are returned in terms of the call's results and arguments.
+func (lg *ledger) postBounds(call *ssa.Call, flagIdx int) []diffC {
+	g := call.Call.StaticCallee()
+	if g == nil || !inModule(g) || len(g.Blocks) == 0 || len(g.Blocks) > 40 || g == lg.fn || len(g.Params) != len(call.Call.Args) {
+		return nil
+	}
+	type post struct {
+		res   int
+		kind  string // nonneg | Len | len
+		param int
+	}
+	w := lg.w
+	w.memoMu.Lock()
+	if w.postMemo == nil {
+		w.postMemo = map[string]interface{}{}
+	}
+	mk := fmt.Sprintf("%p/%d", g, flagIdx)
+	cached, have := w.postMemo[mk]
+	w.memoMu.Unlock()
+	var posts []post
+	if have {
+		posts = cached.([]post)
+	} else {
+		lgG := newLedger(w, g)
+		var cands []post
+		nres := g.Signature.Results().Len()
+		for i := 0; i < nres; i++ {
+			if i == flagIdx || !isIntType(g.Signature.Results().At(i).Type()) {
+				continue
+			}
+			cands = append(cands, post{i, "nonneg", -1})
+			for k, prm := range g.Params {
+				switch {
+				case namedIs(prm.Type(), "reflect", "Value"):
+					cands = append(cands, post{i, "Len", k})
+				case isSliceType(prm.Type()) || isBasicKind(prm.Type(), types.String):
+					cands = append(cands, post{i, "len", k})
+				}
+			}
+		}
+		nRet := 0
+		for _, b := range g.Blocks {
+			r, isRet := b.Instrs[len(b.Instrs)-1].(*ssa.Return)
+			if !isRet || len(r.Results) != nres {
+				continue
+			}
+			// a failing return: the flag is a non-nil error / false
+			fv := r.Results[flagIdx]
+			if c, isC := fv.(*ssa.Const); isC {
+				if c.Value != nil && c.Value.Kind() == constant.Bool && !constant.BoolVal(c.Value) {
+					continue
+				}
+			} else if definitelyNonNil(fv) {
+				continue
+			}
+			nRet++
+			facts := lgG.boundFacts(b)
+			var keep []post
+			for _, c := range cands {
+				rb, ro := lgG.term(r.Results[c.res])
+				ok := false
+				switch c.kind {
+				case "nonneg":
+					ok = entails(facts, "0", rb, ro) // 0 - (rb+ro) <= 0
+				case "Len":
+					ok = entails(facts, rb, "Len("+lgG.key(g.Params[c.param])+")", -1-ro)
+				case "len":
+					ok = entails(facts, rb, "len("+lgG.key(g.Params[c.param])+")", -1-ro)
+				}
+				if ok {
+					keep = append(keep, c)
+				}
+			}
+			cands = keep
+		}
+		if nRet > 0 {
+			posts = cands
+		}
+		w.memoMu.Lock()
+		w.postMemo[mk] = posts
+		w.memoMu.Unlock()
+	}
+	var out []diffC
+	for _, ps := range posts {
+		var ex ssa.Value
+		for _, ref := range *call.Referrers() {
+			if e, ok := ref.(*ssa.Extract); ok && e.Index == ps.res {
+				ex = e
+			}
+		}
+		if ex == nil {
+			continue
+		}
+		switch ps.kind {
+		case "nonneg":
+			out = append(out, diffC{"0", lg.key(ex), 0})
+		case "Len":
+			out = append(out, diffC{lg.key(ex), "Len(" + lg.key(call.Call.Args[ps.param]) + ")", -1})
+		case "len":
+			out = append(out, diffC{lg.key(ex), "len(" + lg.key(call.Call.Args[ps.param]) + ")", -1})
+		}
 	}
 	return out
 }
@@ -183,8 +305,10 @@ func (lg *ledger) key(v ssa.Value) string {
 	if v == nil {
 		return "<nil>"
 	}
-	if a, ok := predSubst[v]; ok && a != v {
-		return lg.key(a)
+	if _, isParam := v.(*ssa.Parameter); isParam {
+		if a, ok := lg.w.predSubst.Load(v); ok && a.(ssa.Value) != v {
+			return lg.key(a.(ssa.Value))
+		}
 	}
 	if k, ok := lg.keys[v]; ok {
 		return k
@@ -223,6 +347,9 @@ func (lg *ledger) key(v ssa.Value) string {
 		if x.Op == token.MUL {
 			if al, ok := x.X.(*ssa.Alloc); ok && singleStoreCell(al) {
 				k = "cell(" + al.Name() + fmt.Sprintf("@%p)", al)
+				if sv := cellValue(x); sv != nil {
+					k = lg.key(sv) // the variable is written once, before this load: it IS that value
+				}
 			}
 			// loads of a field of the receiver/parameter: stable if never stored in this function
 			if fa, ok := x.X.(*ssa.FieldAddr); ok {
@@ -587,6 +714,31 @@ func (lg *ledger) implies(f edgeFact, p pred) bool {
 
 // kindFact: cond (with truth) constrains the kind of subject to a set.
 func (lg *ledger) kindFact(cond ssa.Value, truth bool, subject ssa.Value, isType bool) (uint64, bool) {
+	// table[Kind(v)] for a constant table map[reflect.Kind]bool: true selects the kinds listed with true
+	if lk, isLk := cond.(*ssa.Lookup); isLk && !lk.CommaOk && !isType {
+		if ld, isLd := lk.X.(*ssa.UnOp); isLd && ld.Op == token.MUL {
+			if g, isG := ld.X.(*ssa.Global); isG {
+				if t := constTablesOf(g.Pkg)[g]; t != nil && isBasicKind(t.valType, types.Bool) {
+					if recv, _, ok := reflectValueCall(lk.Index, "Kind"); ok && lg.key(recv) == lg.key(subject) {
+						var set uint64
+						for i, k := range t.keys {
+							c, isC := t.vals[i].(*ssa.Const)
+							if !isC || c.Value == nil || c.Value.Kind() != constant.Bool || k.Kind() != constant.Int {
+								return 0, false
+							}
+							if n, exact := constant.Int64Val(k); exact && n >= 0 && n < 64 && constant.BoolVal(c.Value) {
+								set |= 1 << uint(n)
+							}
+						}
+						if truth {
+							return set, true
+						}
+						return ^uint64(0) &^ set, true
+					}
+				}
+			}
+		}
+	}
 	bo, ok := cond.(*ssa.BinOp)
 	if !ok || (bo.Op != token.EQL && bo.Op != token.NEQ) {
 		return 0, false
@@ -724,6 +876,9 @@ func (lg *ledger) proveStep(p pred, at *ssa.BasicBlock, ctx *proofCtx) (bool, st
 	if why := lg.byCalleeReturns(p, at, ctx); why != "" {
 		return true, why
 	}
+	if why := lg.byGlobalInit(p, ctx); why != "" {
+		return true, why
+	}
 	switch len(at.Preds) {
 	case 0:
 		return false, ""
@@ -756,8 +911,36 @@ func (lg *ledger) byCalleeReturns(p pred, at *ssa.BasicBlock, ctx *proofCtx) str
 	default:
 		return ""
 	}
+	if ctx.depth > 30 {
+		return ""
+	}
+	// the single result of a module function: the predicate holds for what every return yields
+	if call, isCall := p.v.(*ssa.Call); isCall {
+		g := call.Call.StaticCallee()
+		if g == nil || len(g.Blocks) == 0 || !inModule(g) || g == lg.fn || g.Signature.Results().Len() != 1 {
+			return ""
+		}
+		lgG := newLedger(lg.w, g)
+		n := 0
+		for _, b := range g.Blocks {
+			r, isRet := b.Instrs[len(b.Instrs)-1].(*ssa.Return)
+			if !isRet || len(r.Results) != 1 {
+				continue
+			}
+			n++
+			q := p
+			q.v = r.Results[0]
+			if okq, _ := lgG.prove(q, b); !okq {
+				return ""
+			}
+		}
+		if n == 0 {
+			return ""
+		}
+		return "holds for the result at every return of " + g.Name()
+	}
 	ex, ok := p.v.(*ssa.Extract)
-	if !ok || ctx.depth > 30 {
+	if !ok {
 		return ""
 	}
 	call, ok := ex.Tuple.(*ssa.Call)
@@ -814,6 +997,98 @@ func (lg *ledger) byCalleeReturns(p pred, at *ssa.BasicBlock, ctx *proofCtx) str
 	return "holds for this result at every return of " + g.Name() + " that the tested flag allows"
 }
 
+// byGlobalInit: the subject is read from a package variable that is written exactly once, by its
+// initialiser, and never has its address taken: the predicate holds if it holds for the initial value.
+func (lg *ledger) byGlobalInit(p pred, ctx *proofCtx) string {
+	if p.b != nil || ctx.depth > 30 {
+		return ""
+	}
+	ld, ok := p.v.(*ssa.UnOp)
+	if !ok || ld.Op != token.MUL {
+		return ""
+	}
+	g, ok := ld.X.(*ssa.Global)
+	if !ok || g.Pkg == nil || !strings.HasPrefix(g.Pkg.Pkg.Path(), modPath) {
+		return ""
+	}
+	st := lg.w.globalInitStore(g)
+	if st == nil {
+		return ""
+	}
+	l2 := newLedger(lg.w, st.Parent())
+	q := p
+	q.v = st.Val
+	if ok, why := l2.prove(q, st.Block()); ok {
+		return "package variable " + g.Name() + " is only written by its initialiser, whose value satisfies it (" + why + ")"
+	}
+	return ""
+}
+
+// globalInitStore: the single store to g in the module, if it is in the package initialiser and
+// g is otherwise only loaded.
+func (w *World) globalInitStore(g *ssa.Global) *ssa.Store {
+	w.memoMu.Lock()
+	if w.globalInit == nil {
+		w.globalInit = map[*ssa.Global]*ssa.Store{}
+		w.globalInitDone = map[*ssa.Global]bool{}
+	}
+	if w.globalInitDone[g] {
+		st := w.globalInit[g]
+		w.memoMu.Unlock()
+		return st
+	}
+	w.memoMu.Unlock()
+	initFn := g.Pkg.Func("init")
+	var only *ssa.Store
+	n, bad := 0, false
+	var scan []*ssa.Package
+	for _, p := range g.Pkg.Prog.AllPackages() {
+		if p.Pkg != nil && strings.HasPrefix(p.Pkg.Path(), modPath) {
+			if p == g.Pkg || (g.Object() != nil && g.Object().Exported()) {
+				scan = append(scan, p)
+			}
+		}
+	}
+	for _, p := range scan {
+		for _, f := range functionsOf(p) {
+			for _, b := range f.Blocks {
+				for _, ins := range b.Instrs {
+					var buf [8]*ssa.Value
+					for _, op := range ins.Operands(buf[:0]) {
+						if op == nil || *op != ssa.Value(g) {
+							continue
+						}
+						switch x := ins.(type) {
+						case *ssa.UnOp:
+							if x.Op != token.MUL {
+								bad = true
+							}
+						case *ssa.Store:
+							if x.Addr == ssa.Value(g) && f == initFn {
+								n++
+								only = x
+							} else {
+								bad = true
+							}
+						case *ssa.DebugRef:
+						default:
+							bad = true
+						}
+					}
+				}
+			}
+		}
+	}
+	if bad || n != 1 {
+		only = nil
+	}
+	w.memoMu.Lock()
+	w.globalInit[g] = only
+	w.globalInitDone[g] = true
+	w.memoMu.Unlock()
+	return only
+}
+
 // edgeInfeasible: the proof runs under the assumption that some phi (an
 // error variable) is nil; an incoming edge of the phi's block that feeds it a
 // freshly constructed error cannot have been taken.
@@ -864,6 +1139,11 @@ func (lg *ledger) condString(f edgeFact) string {
 
 // byConstruction: the defining instruction of the subject cannot yield the bad case.
 func (lg *ledger) byConstruction(p pred, at *ssa.BasicBlock, ctx *proofCtx) string {
+	if ld, ok := p.v.(*ssa.UnOp); ok {
+		if sv := cellValue(ld); sv != nil {
+			p.v = sv
+		}
+	}
 	v := p.v
 	// phi: every input, evaluated in its predecessor
 	if phi, ok := v.(*ssa.Phi); ok {
@@ -1321,6 +1601,39 @@ func (lg *ledger) boundFacts(b *ssa.BasicBlock) (out []diffC) {
 		}
 		add(bo.X, op, bo.Y)
 	}
+	// results of a validating helper: `i, err := check(x, ...)` with err known to be nil here
+	// (or `i, ok := ...` with ok known true): what the helper guarantees about i on its successful returns
+	for _, f := range dominatingFacts(b) {
+		cond, truth := f.cond, f.truth
+		for {
+			u, ok := cond.(*ssa.UnOp)
+			if !ok || u.Op != token.NOT {
+				break
+			}
+			cond, truth = u.X, !truth
+		}
+		var flag *ssa.Extract
+		if bo, ok := cond.(*ssa.BinOp); ok && (bo.Op == token.EQL || bo.Op == token.NEQ) {
+			isNil := truth == (bo.Op == token.EQL)
+			if ex, ok := bo.X.(*ssa.Extract); ok && isNilConst(bo.Y) && isNil {
+				flag = ex
+			}
+			if ex, ok := bo.Y.(*ssa.Extract); ok && isNilConst(bo.X) && isNil {
+				flag = ex
+			}
+		}
+		if ex, ok := cond.(*ssa.Extract); ok && truth && isBasicKind(ex.Type(), types.Bool) {
+			flag = ex
+		}
+		if flag == nil {
+			continue
+		}
+		call, ok := flag.Tuple.(*ssa.Call)
+		if !ok {
+			continue
+		}
+		out = append(out, lg.postBounds(call, flag.Index)...)
+	}
 	defer func() {
 		// x != c with x >= c known  =>  x >= c+1 (applied after the structural facts were added)
 		for _, pr := range eqFalse {
@@ -1360,11 +1673,11 @@ func (lg *ledger) boundFacts(b *ssa.BasicBlock) (out []diffC) {
 				if bt, ok := x.Type().Underlying().(*types.Basic); !ok || bt.Info()&types.IsInteger == 0 {
 					continue
 				}
-				var c0 *int64
-				okInd := true
+				var c0, c1 *int64 // smallest / largest constant start
 				var startB string
 				var startO int64
 				nStart := 0
+				up, down := true, true // every step is >= 0 / <= 0
 				for _, e := range x.Edges {
 					eb, eo := lg.term(e)
 					switch {
@@ -1373,18 +1686,37 @@ func (lg *ledger) boundFacts(b *ssa.BasicBlock) (out []diffC) {
 						if c0 == nil || v < *c0 {
 							c0 = &v
 						}
-					case eb == lg.key(x) && eo >= 0:
+						w := eo
+						if c1 == nil || w > *c1 {
+							c1 = &w
+						}
+					case eb == lg.key(x):
+						if eo < 0 {
+							up = false
+						}
+						if eo > 0 {
+							down = false
+						}
 					default:
 						startB, startO = eb, eo
 						nStart++
 					}
 				}
-				if okInd && c0 != nil && nStart == 0 {
+				if up && c0 != nil && nStart == 0 {
 					out = append(out, diffC{"0", lg.key(x), -*c0}) // 0 - phi <= -c0
 				}
 				// phi(start, phi+k) with k >= 0 and a symbolic start: phi >= start
-				if c0 == nil && nStart == 1 && len(x.Edges) == 2 {
+				if up && c0 == nil && nStart == 1 && len(x.Edges) == 2 {
 					out = append(out, diffC{startB, lg.key(x), -startO})
+				}
+				// a counter that only goes down never exceeds where it started: phi <= start
+				if down && !up {
+					if c1 != nil && nStart == 0 {
+						out = append(out, diffC{lg.key(x), "0", *c1})
+					}
+					if c1 == nil && nStart == 1 && len(x.Edges) == 2 {
+						out = append(out, diffC{lg.key(x), startB, startO})
+					}
 				}
 			case *ssa.Index:
 				if arr, isArr := x.X.Type().Underlying().(*types.Array); isArr {
@@ -1401,6 +1733,26 @@ func (lg *ledger) boundFacts(b *ssa.BasicBlock) (out []diffC) {
 					k := "len(" + lg.key(x.X) + ")"
 					out = append(out, diffC{k, "0", arr.Len()}, diffC{"0", k, -arr.Len()})
 				}
+			case *ssa.Slice:
+				// len(x[:h]) == h ; len(x[c:]) == len(x) - c for a constant c
+				k := "len(" + lg.key(x) + ")"
+				switch {
+				case x.Low == nil && x.High != nil:
+					hb, ho := lg.term(x.High)
+					out = append(out, diffC{k, hb, ho}, diffC{hb, k, -ho})
+				case x.High == nil && x.Max == nil:
+					if _, isStr := x.X.Type().Underlying().(*types.Basic); isStr || isSliceType(x.X.Type()) {
+						lo := int64(0)
+						okc := x.Low == nil
+						if c, isC := x.Low.(*ssa.Const); isC && c.Value != nil && c.Value.Kind() == constant.Int {
+							lo, okc = c.Int64(), true
+						}
+						if okc {
+							xk := "len(" + lg.key(x.X) + ")"
+							out = append(out, diffC{k, xk, -lo}, diffC{xk, k, lo})
+						}
+					}
+				}
 			case *ssa.MakeSlice:
 				// len(make([]T, n)) == n
 				lb, lo := lg.term(x.Len)
@@ -1409,6 +1761,16 @@ func (lg *ledger) boundFacts(b *ssa.BasicBlock) (out []diffC) {
 			case *ssa.Call:
 				if n := pureCallName(x); n == "len" || n == "Len" || n == "Type.NumIn" || n == "cap" {
 					out = append(out, diffC{"0", lg.key(x), 0}) // >= 0
+				}
+				if pkg, name := staticCalleeName(x); (pkg == "strings" || pkg == "bytes") && len(x.Call.Args) >= 1 {
+					// the index functions return -1 or a position inside their first operand
+					lk := "len(" + lg.key(x.Call.Args[0]) + ")"
+					switch name {
+					case "IndexByte", "IndexRune", "IndexAny", "LastIndexByte", "LastIndexAny", "IndexFunc", "LastIndexFunc":
+						out = append(out, diffC{lg.key(x), lk, -1}, diffC{"0", lg.key(x), 1}) // -1 <= r <= len-1
+					case "Index", "LastIndex":
+						out = append(out, diffC{lg.key(x), lk, 0}, diffC{"0", lg.key(x), 1}) // -1 <= r <= len
+					}
 				}
 				if pkg, name := staticCalleeName(x); pkg == "strings" && name == "Split" {
 					out = append(out, diffC{"0", "len(" + lg.key(x) + ")", -1}) // len >= 1
@@ -1755,6 +2117,35 @@ func allFuncsOf(w *World, sp *ssa.Package) []*ssa.Function {
 
 // singleStoreCell: a local cell (a parameter or variable captured by a closure)
 // that is stored exactly once in its function and never through a closure.
+// cellValue: ld loads a local variable that is written exactly once (it lives in a cell because a
+// closure captures it) and that write comes before the load on every path: the value written.
+func cellValue(ld *ssa.UnOp) ssa.Value {
+	al, ok := ld.X.(*ssa.Alloc)
+	if !ok || ld.Op != token.MUL || !singleStoreCell(al) {
+		return nil
+	}
+	for _, ref := range *al.Referrers() {
+		st, ok := ref.(*ssa.Store)
+		if !ok || st.Addr != ssa.Value(al) {
+			continue
+		}
+		if st.Block() == ld.Block() {
+			for _, ins := range st.Block().Instrs {
+				if ins == ssa.Instruction(st) {
+					return st.Val
+				}
+				if ins == ssa.Instruction(ld) {
+					return nil
+				}
+			}
+		}
+		if st.Block().Dominates(ld.Block()) {
+			return st.Val
+		}
+	}
+	return nil
+}
+
 func singleStoreCell(al *ssa.Alloc) bool {
 	stores := 0
 	for _, ref := range *al.Referrers() {
@@ -1861,4 +2252,9 @@ func (lg *ledger) proveAnyUnderAlternatives(b *ssa.BasicBlock, try func(ctx *pro
 		}
 	}
 	return true
+}
+
+func isSliceType(t types.Type) bool {
+	_, ok := t.Underlying().(*types.Slice)
+	return ok
 }
